@@ -200,6 +200,12 @@ def extra_cases():
     b, d2, _ = _run(toml='extra_mods = { mymod = "https://example.com/doc" }\n')
     if isinstance(a, tuple) or isinstance(b, tuple) or a.extra_mods.get("mymod") != b.extra_mods.get("mymod"):
         bad.append(("quoted URL in extra_mods", a if isinstance(a, tuple) else a.extra_mods.get("mymod"), b if isinstance(b, tuple) else b.extra_mods.get("mymod")))
+    # the `extension comment [lexer]` spelling of extra_filetypes in the project file: the parts are separated by any white space (aligned columns, tabs)
+    a, d, _ = _run(md_meta="extra_filetypes: inc  !\n                 c    //  c\n                 h\t//\tcpp\n")
+    b, d2, _ = _run(toml='extra_filetypes = [{extension = "inc", comment = "!"}, {extension = "c", comment = "//", lexer = "c"}, {extension = "h", comment = "//", lexer = "cpp"}]\n')
+    ft = lambda x: x if isinstance(x, tuple) else sorted((k, v.extension, v.comment, v.lexer) for k, v in x.extra_filetypes.items())
+    if ft(a) != ft(b) or isinstance(a, tuple):
+        bad.append(("extra_filetypes with several blanks / tabs between the parts", ft(a), ft(b)))
     # command line overrides file; explicit flags override --config; --config overrides file
     a, d, _ = _run(md_meta="quiet: false\nrevision: from-file\nmacro: FILE=1\n", cargs={"quiet": True, "revision": "from-cli", "macro": ["CLI=1"]})
     if isinstance(a, tuple) or (a.quiet, a.revision, a.macro) != (True, "from-cli", ["CLI=1"]):
